@@ -134,6 +134,8 @@ def proj_hh(sk):
 def default_thr(phi, nadd):
     """floor(phi * n_added()) as the property states it (float64 product)."""
     x = float(phi) * float(int(nadd))
+    if not math.isfinite(x) or not (0.0 < float(phi) <= 1.0):
+        raise common.ImplMisbehaved("a HeavyHitters object reports phi = %r (outside (0, 1])" % float(phi))
     if x >= 2**32:
         raise MachineryError("default threshold outside uint32; the driver must pass one explicitly")
     return int(math.floor(x))
